@@ -54,6 +54,10 @@ CONFIRMED = {
 
 def run(repo, tier):
     out = []
+    # the wrapper's n_jobs only sets (and restores) numba's thread count
+    from ..rules import knob_rule
+    if repo.has_func(T + ".tomtom"):
+        out += knob_rule(repo.func(T + ".tomtom"), "n_jobs")
     fi = repo.func(T + "._tomtom")
     pm = parent_map(fi.node)
     pr = [n for n in walk_no_nested(fi.node) if isinstance(n, ast.For) and isinstance(n.iter, ast.Call)
